@@ -293,3 +293,22 @@ Qed.
 
 Theorem clamp_dtype_float_target dt lf hf : (4 <= dt)%nat -> clamp_dtype dt lf hf = dt.
 Proof. intros Hd. unfold clamp_dtype, is_float_dt. destruct (Nat.leb_spec 4 dt); [reflexivity|lia]. Qed.
+
+(* ====================================================================== write-back into the target *)
+(* for every target that takes a tensor assignment the run opportunity is the kernel, without error *)
+Theorem hook_step_target_ok kernel fire data :
+  hook_step_target RN false kernel fire data = (hook_step RN kernel fire data, None).
+Proof. unfold hook_step_target, hook_step. destruct fire; reflexivity. Qed.
+
+(* REFUTED for bare nn.Parameter targets (known finding C16-bare-parameter-target): the hook fires, the module
+   call raises TypeError and the target is left outside [min, max] *)
+Theorem bare_parameter_target_refuted :
+  exists lo hi data,
+    clamping_new RN (Some lo) (Some hi) = None /\
+    let r := hook_step_target RN true (clamp_kernel RN (Some lo) (Some hi)) true data in
+    snd r = Some EType /\ exists row y, In row (fst r) /\ In y row /\ hi < y.
+Proof.
+  exists 0, 1, [[2]]. split.
+  - unfold clamping_new. rn_simpl. destruct (Rltb'_spec 0 1); auto. lra.
+  - simpl. split; auto. exists [2], 2. simpl. repeat split; auto. lra.
+Qed.
